@@ -258,6 +258,8 @@ func cmdWorker(args []string) int {
 			return
 		}
 		seenViol[key] = true
+		core.SetReplaying(true) // re-executions sample uncontrolled nondeterminism (C16's map order) more often
+		defer core.SetReplaying(false)
 		orig := r.Violation
 		isRace := orig.Oracle == "data-race"
 		// runTape executes a tape and returns its result and the tape it consumed. Race reports are
@@ -448,6 +450,7 @@ func cmdReplay(args []string) int {
 		return 2
 	}
 	core.ApplyReplayEnv(rf.Env)
+	core.SetReplaying(true)
 	kickWatchdog("replay")
 	r := runEntry(p, e, choice.Replay(rf.Tape))
 	verbose := len(args) > 1 && args[1] == "-v"
